@@ -5,38 +5,9 @@ import os
 
 VERIF = os.path.dirname(os.path.dirname(os.path.abspath(__file__)))
 
-# property -> (technique, level text, level note, design ref)
-CLAIMED = {
-    "C09": (
-        "Coq proof (induction over histories, bit-matrix refinement to reflexive-transitive closure) + "
-        "extracted-model differential against cfg.so",
-        "Theorem reach_correct (coq/Props/C09.v): for every well-formed history of NewCFGNode/ConnectTo of any "
-        "length and any number of 64-bit buckets, is_reachable a b = true <-> a ->* b in the inserted edges; "
-        "rows_wf rules out out-of-range reads. The Gallina model mirrors reachable.cc/typegraph.cc line by line "
-        "and is tied to the current source by running the extracted model and the real cfg.Program (rebuilt from "
-        "/repo) on the same histories, every answer compared, with a BFS oracle for the concrete replay.",
-        "Trusted: Coq kernel; ExtrOcamlBasic extraction + 30-line OCaml driver; g++/STL; the harness generator "
-        "and differ. Modelled rather than verified: signed 1l<<63 read as unsigned bit.",
-        "DESIGN.md §4 C09"),
-}
-
-CLAIMED["C08"] = (
-    "Coq proof (cache-coherence invariant over histories, table of invalidating primitives regenerated from the "
-    "C++ source) + graph/invalidation correspondence + replica differential against cfg.so",
-    "Theorems history_independent / repeat_stable (coq/Props/C08.v): for every history of API operations and "
-    "queries and every solver memo obeying the memo laws, each query returns what a fresh solver on the current "
-    "graph returns, provided every graph-changing primitive drops the solver - a closed boolean over the "
-    "invalidation table regenerated from typegraph.cc/.h on every run (repo_table_safe, vm_compute). The model's "
-    "graph and invalidation flags are compared with the real cfg.Program on generated histories (snapshots through "
-    "the public API, invalidation observed via the solver-metrics counter) and at every query a replica rebuilt "
-    "from scratch is asked the same question (the property's own oracle, yields the replay). PARTIAL: the memo "
-    "laws are proved for a whole-query cache in front of any solver reading the solver-visible graph; for the real "
-    "sub-state memo (provisional entries on cyclic graphs) they are assumed and exercised by the replica "
-    "differential only.",
-    "Trusted: Coq kernel; regex/brace-matching scan of the C++ source (fail-closed); harness generator, API-op to "
-    "primitive decomposition (validated by snapshot comparison), g++/STL. Not modelled: MAX_VAR_SIZE collapse, "
-    "pointer-hash collisions in the solver's state set.",
-    "DESIGN.md §4 C08")
+# property -> {technique, text, note, ref}: kept in harness/claimed.json
+CLAIMED = {k: (v["technique"], v["text"], v["note"], v["ref"])
+           for k, v in json.load(open(os.path.join(VERIF, "harness", "claimed.json"))).items()}
 
 PENDING_REASON = ("not yet built in this development (design in DESIGN.md §4); no check is registered, so nothing "
                   "is claimed for it")
